@@ -1,5 +1,17 @@
 (* C03 — the loader stage and the status_code list as an order-free set.
-   Lemmas only; final statements in Property.v. *)
+   Lemmas only; final statements in Property.v.  One exception, at the end: the
+   executable definitions of the decode variant [decode_canon] (seed C03-10 with
+   both of its halves) live here and not in Model.v, so that Model.vo - which
+   C04 and C14 are compiled against - did not have to change for a variant that
+   no suite evaluates.
+
+   What is and is not proved about the loader: [load_flows] is DEFINED as
+   [map (with_url decode_keep)] with [decode_keep u := u], so [load_flows_id]
+   below (and C03_loader_keeps_filter in Property.v) holds by unfolding - it says
+   that the MODEL's stage is the identity, nothing about Filter.UnmarshalYAML.
+   That the Go loader keeps the filter as written is established by the
+   correspondence suite 'loaded' only (flow files read back by
+   streamconfig.GetFlows / Stream.Initialize, evaluated through run_case_loaded). *)
 From Coq Require Import List ZArith Bool Permutation Lia.
 From Verif Require Import C03.Trie C03.Model C03.Spec C03.SpecLocal C03.Proofs.
 Import ListNotations.
@@ -62,4 +74,29 @@ Proof.
     + left. exact H.
     + right. left. rewrite H in HP. apply Permutation_sym, Permutation_nil in HP. exact HP.
     + right. right. exists st. split; [exact H1 | eapply Permutation_in; [apply Permutation_sym|]; eauto].
+Qed.
+
+(* ---- seed C03-10 in full ----
+   The seed's line is  f.URL = strings.ToLower(strings.TrimSpace(f.URL)).
+   [Model.decode_lower] is its ToLower half alone.  [decode_canon] is both halves:
+   strings.TrimSpace restricted to ASCII (the six bytes unicode.IsSpace accepts
+   below 0x80: TAB LF VT FF CR and the blank; U+0085 / U+00A0 are two-byte UTF-8
+   sequences and, like every non-ASCII byte, outside this model), then ToLower.
+   No suite evaluates either variant; they exist to be refuted (Property.v). *)
+Definition is_space (c : Z) : bool := ((9 <=? c) && (c <=? 13)) || (c =? 32).
+Definition trim_space (u : tok) : tok := trim is_space u.
+Definition decode_canon (u : tok) : tok := lower (trim_space u).
+
+(* on a URL without surrounding blanks the two variants are the same function:
+   every witness against [decode_lower] is a witness against the seed *)
+Lemma decode_canon_lower : forall u, trim_space u = u -> decode_canon u = decode_lower u.
+Proof. intros u H. unfold decode_canon, decode_lower. rewrite H. reflexivity. Qed.
+
+Lemma load_with_canon_lower : forall ws,
+  Forall (fun f => trim_space (f_url f) = f_url f) ws ->
+  load_with decode_canon ws = load_with decode_lower ws.
+Proof.
+  intros ws H. unfold load_with. induction H as [|f ws Hf _ IH]; cbn [map].
+  - reflexivity.
+  - rewrite IH. unfold with_url. rewrite (decode_canon_lower _ Hf). reflexivity.
 Qed.
